@@ -217,6 +217,42 @@ static void run_stored_cswap(int n, const int* in, const SwapHolder& member, con
     }
 }
 
+// ---- two comparator OBJECTS of one type (function pointers asc / desc, rank tables asc / desc) through the same entry
+// point one after the other: each call must use the comparator it was given (an implementation that caches its
+// CS_IfSwap / comparator in a function-local static would keep the first one).
+static bool fp_asc(const int& a, const int& b) { return a < b; }
+static bool fp_desc(const int& a, const int& b) { return a > b; }
+struct TableCmp {
+    std::vector<int> rank;
+    TableCmp(int universe, bool desc) { for (int i = 0; i < universe; ++i) rank.push_back(desc ? universe - i : i); }
+    bool operator()(int a, int b) const { return rank[static_cast<size_t>(a)] < rank[static_cast<size_t>(b)]; }
+};
+template <typename C>
+static void check_with(const char* what, int f, int kind, int n, const int* in, C c) {
+    int a[16]; std::copy(in, in + n, a);
+    if (kind == 0) { if (n < 2) return; if (f == 0) direct_best(a, n, c); else if (f == 1) direct_bn(a, n, c); else direct_bnp(a, n, c); }
+    else if (f == 0) sn::best::sort(a, a + n, c);
+    else if (f == 1) sn::bose_nelson::sort(a, a + n, c);
+    else sn::bose_nelson_parameter::sort(a, a + n, c);
+    ++g_eval;
+    bool ok = true;
+    for (int i = 0; i + 1 < n; ++i) if (c(a[i + 1], a[i])) ok = false;
+    int x[16], y[16]; std::copy(in, in + n, x); std::copy(a, a + n, y); std::sort(x, x + n); std::sort(y, y + n);
+    if (!std::equal(x, x + n, y)) ok = false;
+    if (!ok) report_it(what, f, kind, n, in, a);
+}
+static void run_two_objects(int n, const int* in) {
+    typedef bool (*FP)(const int&, const int&);
+    TableCmp tasc(2, false), tdesc(2, true);
+    for (int f = 0; f < 3; ++f) for (int kind = 0; kind < 2; ++kind) {
+        check_with<FP>("fnptr-asc(first object)", f, kind, n, in, &fp_asc);
+        check_with<FP>("fnptr-desc(second object of the same type)", f, kind, n, in, &fp_desc);
+        check_with<FP>("fnptr-asc(again)", f, kind, n, in, &fp_asc);
+        check_with<TableCmp>("table-desc(first object)", f, kind, n, in, tdesc);
+        check_with<TableCmp>("table-asc(second object of the same type)", f, kind, n, in, tasc);
+    }
+}
+
 // default-argument variants: ascending order of ints expected
 static void run_defaults(int n, const int* in) {
     static const char* fams[3] = { "best", "bn", "bnp" };
@@ -288,6 +324,7 @@ int main(int argc, char** argv) {
                 int a[16]; for (int i = 0; i < n; ++i) a[i] = (mask >> i) & 1;
                 run_iterators(n, a);
                 run_stored_cswap(n, a, *member, *heap);
+                run_two_objects(n, a);
             }
         }
     }
